@@ -90,7 +90,7 @@ def _one(item):
 def main(tier):
     ck = vcheck.Check("C01", "model_checking", tier)
     if tier == "thorough":
-        runs = [["matrix", 7, 1], ["bfs", "unitary", 3, 4], ["bfs", "unitary", 4, 3], ["bfs", "unitary", 5, 2]]
+        runs = [["matrix", 8, 1], ["bfs", "unitary", 2, 7, 6000000], ["bfs", "unitary", 3, 5, 6000000], ["bfs", "unitary", 4, 4, 6000000], ["bfs", "unitary", 5, 2]]
         nmax = 3
     else:
         runs = [["matrix", 6, 4], ["bfs", "unitary", 3, 3]]
